@@ -4,24 +4,21 @@ manifest stays schema-valid). Run: python3 tools/mkmanifest.py"""
 import json, os, subprocess
 V = os.path.dirname(os.path.dirname(os.path.abspath(__file__)))
 
-TRUST = ("Lean 4.33 kernel; axioms at most propext/Classical.choice/Quot.sound (audited per run by #audit_module); "
-         "hand-written model tied to the C++ by the correspondence harness (differential, generator-bounded); ")
-
-CLAIMED = {
- "C09": dict(
-  text=("Theorems (Props/C09.lean) for every finite history of valid CachedMatrix operations, every size and capacity: "
-        "cached/returned/storage-copied entries equal the base matrix under the current permutation, size accounting, "
-        "capacity bound, LRU list = cached lines, two most recent rows survive a third fetch iff capacity allows "
-        "(with a decide-checked witness for the converse). The model (Model/Cache.lean) is tied to the real "
-        "LRUCache/CachedMatrix by an exact line-by-line correspondence over random histories (double and float caches) "
-        "under ASan/UBSan, plus an independent in-harness property oracle."),
-  note=TRUST + "memory safety of the real object code is runtime evidence (ASan/UBSan over the generated histories), the theorem is about the model; "
-       "wrapper matrices (precomputed, regularised, modified …) not yet covered.",
-  technique="Lean 4 invariant proof by induction over operation histories + differential correspondence with the C++ (ASan/UBSan)",
-  design="§6 C09"),
-}
+import importlib, sys
+sys.path.insert(0, V)
+CLAIMED = {}
+for i in range(1, 21):
+    pid = f"C{i:02d}"
+    if os.path.exists(os.path.join(V, "checks", pid.lower() + ".py")):
+        mod = importlib.import_module(f"checks.{pid.lower()}")
+        if getattr(mod, "MANIFEST", None):
+            CLAIMED[pid] = mod.MANIFEST
 
 NOT_YET = {}
+try:
+    NOT_YET = json.load(open(os.path.join(V, "tools", "not_claimed.json")))
+except OSError:
+    pass
 props = [json.loads(l) for l in open(os.path.join(V, "properties.jsonl"))]
 checks, na = [], []
 for p in props:
